@@ -131,7 +131,7 @@ def minimise(exe, case, want_oracle_fail):
 def check(tier):
     rep = vlib.Report(PROP, tier, "proof")
     rng = random.Random(rep.seed)
-    st = vlib.proof_stage(rep, "Properties_C03.v")
+    st = vlib.proof_stage(rep, "Properties_C03.v", ["esc"])
     theorems = st["theorems"]
     proof_ok = st["ok"]
 
